@@ -591,6 +591,27 @@ class Val(T):
         self.kinds = kinds
 
 
+def unit_dict_keys_validated(bad, timeout_ms=10000):
+    """_dict_to_BlockSeries rejects malformed keys with ValueError instead of silently ignoring the term they label.
+    bad: ragged (keys of different length) | negative (a negative order) | non-tuple (bare integers as keys); fractional orders are left to the battery (illposed)."""
+    fn = frontend.find(MODULE, "_dict_to_BlockSeries")
+
+    def harness(eng):
+        h0, h1, h2 = Val("h_0", ("sympy",)), Val("h_1", ("sympy",)), Val("h_2", ("sympy",))
+        inp = {"ragged": {(0, 0): h0, (1, 0): h1, (1,): h2}, "negative": {(0,): h0, (1,): h1, (-1,): h2}, "non-tuple": {0: h0, 1: h1}}[bad]
+        eng.globals.update({"copy": Builtin("copy", lambda e, x: dict(x)), "BlockSeries": Builtin("BlockSeries", lambda e, **kw: T("BlockSeries")),
+                            "sympy": Namespace("sympy", {"Basic": TypeObj("Basic")}), "np": Namespace("np", {"ndarray": TypeObj("ndarray")}),
+                            "is_diagonal": Builtin("is_diagonal", lambda e, h, atol=None: False),
+                            "sparse": Namespace("sparse", {"issparse": Builtin("issparse", lambda e, x: False)})})
+        try:
+            eng.call(Closure(fn, Env(None, {}), "_dict_to_BlockSeries"), [inp, None, T("atol")], {})
+            raised = None
+        except PyRaise as pr:
+            raised = pr.exc.cls
+        eng.oblige("malformed-keys-rejected-with-ValueError", z3.BoolVal(raised == "ValueError"), detail=f"{bad}: raised {raised}")
+    return run_unit(f"block_diagonalization:_dict_to_BlockSeries[keys:{bad}]", harness, functions=[(MODULE, "_dict_to_BlockSeries")], timeout_ms=timeout_ms)
+
+
 def unit_dict_to_blockseries(h0_kind, symbolic_keys=False, timeout_ms=10000):
     """h0_kind in {'ndarray', 'sparse', 'sympy'}"""
     fn = frontend.find(MODULE, "_dict_to_BlockSeries")
